@@ -57,7 +57,7 @@ func canon(s string) string {
 	var out []string
 	for i := 0; i < len(f); i++ {
 		out = append(out, f[i])
-		if f[i] == "err" || f[i] == "false-err" || f[i] == "suite-err" {
+		if f[i] == "err" || f[i] == "false-err" || f[i] == "suite-err" || f[i] == "gen-err" {
 			if i+1 < len(f) && isWord(f[i+1]) {
 				i++
 			}
